@@ -1,6 +1,5 @@
 PROP = dict(
     id="C08",
-    disabled=True,
     engines=["c08"],
     go_tags=["c08"],
     lean_modules=["MM.Props.C08"],
@@ -9,9 +8,45 @@ PROP = dict(
         "MM.C08.C08_inv_run",
         "MM.C08.C08_canon_same_network",
         "MM.C08.C08_lookup_correct",
+        "MM.C08.WF_perm",
+        "MM.C08.C08_any_map_order",
         "MM.C08.C08_holds",
         "MM.C08.C08_lookup_none_iff",
         "MM.C08.C08_unrepaired_refuted",
     ],
     spec=True,
+    chunk=3000,
+    rule="histories of add/update/remove/peer-disconnect/age/cleanup/clear on a real routing.Table over a per-case pool of 3-7 networks "
+         "(IPv4, IPv4-mapped with 16-byte mask, mixed address/mask widths, IPv6, host bits set or not, nested /0../32 and /0../128, malformed "
+         "lengths / nil masks) x origins x metrics {0,1,2,3,5,9,255..257,4095,4096,65534,65535} x sequences up to 2^64-1 x paths with/without the "
+         "local agent, interleaved with Lookup / LookupAll / GetRoute / HasRoute / Size of addresses near the pool (4-byte, mapped, IPv6, malformed); "
+         "plus long histories (600 ops), one key with 40-300 origins, tables with up to 900 prefixes, exact duplicates, and every history of length "
+         "<=2 (quick) / <=3 (thorough) over 26 ops around one network in three spellings. Every op is run on the real table and on the Lean model "
+         "(answers and full table dumps compared); `spec` re-evaluates the longest-prefix / lowest-metric statement on the implementation's own "
+         "answer against the implementation's own dump. Non-trivial = a lookup that returned a route, or a mutation that was accepted.",
+    nontrivial=lambda op, out: (op.startswith(("look", "get")) and out.startswith(("route", "routes E"))) or out.startswith(("true", "1 ", "2 ", "3 ", "4 ", "5 ")),
+    trusted_base=[
+        "MM/Model/C08.lean: net.IPNet / net.IP modelled as (byte length, big-endian value, CIDRMask(ones,bits)); Contains / Mask / To4 / "
+        "networkNumberAndMask modelled numerically (shift compare instead of byte-wise AND) - modelled, validated by T-diff, not verified",
+        "net.IPNet.String() assumed one-to-one on (network number, mask) - the model uses that pair as the map key",
+        "sort.Slice modelled as the stable sort: exact for slices of <= 12 entries (insertion sort) and for pairwise distinct metrics",
+        "time: routes are aged through a verif accessor that shifts LastUpdate (harness/exports/internal__routing/c08.go); real time.Now() drift "
+        "stays far below the half-hour rounding margin",
+    ],
+    assumptions=[
+        "only contiguous masks (net.CIDRMask) are representable; hand-built non-contiguous net.IPMask values are outside the model",
+        "the CIDR table is the one after fixes/C08-canonical-network.patch (C08_unrepaired_refuted shows the statement is false without it)",
+        "an address that is neither 4 nor 16 bytes long (net.IP nil after To16) is 'contained' by malformed networks only, as net.IPNet.Contains "
+        "defines it; the theorem covers that corner with this reading",
+    ],
+    manifest=dict(
+        category="proof",
+        text="Lean theorem C08_holds: for every history of table operations and every address, Table.Lookup returns a stored route that contains "
+             "the address, with the longest prefix and, among those, the lowest metric, and returns nothing iff no stored route contains it - for "
+             "every iteration order of the Go map (C08_any_map_order); invariant proved inductive for every op (C08_inv_step/run). Model tied to "
+             "the code by a differential run of the real routing.Table against the compiled model.",
+        design_ref="DESIGN.md section 5 C08",
+        note="Lean kernel; numeric model of net.IPNet; String() injectivity; stable-sort model of sort.Slice; T-diff generator coverage",
+        technique="Lean 4 proof (inductive invariant + fold argmax) + differential correspondence harness + executable statement on impl answers",
+    ),
 )
